@@ -52,6 +52,9 @@ int write_wdc(Memory *memory, FILE *out)
         length = 0;
         address = -1;
       }
+
+      // Nothing was ever written to this page, skip to its last address.
+      if (is_empty && !memory->in_use(n)) { n |= memory->get_page_size() - 1; }
     }
 
     if (is_empty == false)
